@@ -22,17 +22,20 @@ func init() {
 		Exhaustive: true,
 		Rule: "exhaustive: every pattern of length <=5 (thorough <=6) over {a,b,*,\\} x every string of length <=4 (thorough <=5) over the same alphabet, matched through policy.Like(\".\",p) + Policy.Match and compared with the reference glob (tokenise + DP); " +
 			"plus every pattern of <=4 (<=5) characters x every string of <=3 (<=4) characters over {a,é,*,\\} (a multi-byte character next to wildcards and escapes), for each of 29 characters c that are special elsewhere (line feed, CR, tab, NUL, regular-expression and shell metacharacters, separators) every pattern x string of <=3 (<=4) characters over {a,*,\\,c}, every pattern x string of <=4 characters over {a,*,\\,LF,.}, long subjects (to >4 KiB) against patterns of up to 40 wildcards, seeded random longer pairs with multi-byte characters, every non-string kind as subject, and patterns ending in a lone backslash offered to policy.Like and policy.FromIPLD. " +
+			"Purity (also in a -race build): a sample of these calls on shared objects is repeated in reverse / shuffled order and from 16..32 goroutines at once; every outcome must equal the first one and the race detector must stay silent. " +
 			"non-trivial = pattern containing * or \\ and string containing * or \\ ; distinct = (pattern,string).",
 		Assumptions: []string{
 			"reference glob ref.GlobMatch (35 lines), self-tested against the repository's glob test table",
 			"strings and patterns are valid UTF-8 (byte-wise and character-wise reading of the glob language coincide there)",
 		},
-		Shards:      shards(8, 16),
-		Run:         runC13,
-		MinEvals:    floor(400000, 7000000),
-		MinDistinct: floor(100000, 1000000),
+		Shards:          shards(8, 16),
+		RaceShards:      shards(1, 2),
+		RaceIsViolation: true,
+		Run:             runC13,
+		MinEvals:        floor(400000, 7000000),
+		MinDistinct:     floor(100000, 1000000),
 		RequiredCells: func(string) []string {
-			return []string{"pat*/str*", "pat\\/str\\", "pat*/str\\", "pat\\/str*", "lone-backslash/like", "lone-backslash/fromipld", "nonstring/int", "nonstring/bytes", "nonstring/list", "nonstring/map", "nonstring/null", "nonstring/bool", "nonstring/float", "random-long", "multibyte-exhaustive", "special-chars-exhaustive", "linefeed-dot-exhaustive", "long-subjects", "long-subjects/over-4KiB"}
+			return []string{"purity/like/history", "purity/like/concurrent", "pat*/str*", "pat\\/str\\", "pat*/str\\", "pat\\/str*", "lone-backslash/like", "lone-backslash/fromipld", "nonstring/int", "nonstring/bytes", "nonstring/list", "nonstring/map", "nonstring/null", "nonstring/bool", "nonstring/float", "random-long", "multibyte-exhaustive", "special-chars-exhaustive", "linefeed-dot-exhaustive", "long-subjects", "long-subjects/over-4KiB"}
 		},
 		Replay: replayC13,
 	})
@@ -134,6 +137,9 @@ func c13Check(w *mon.W, pat string, pol policy.Policy, s string) {
 }
 
 func runC13(w *mon.W) {
+	if purityGate(w, c13Purity) {
+		return
+	}
 	pats := allStrings(`ab*\`, w.Pick(5, 6))
 	strs := allStrings(`ab*\`, w.Pick(4, 5))
 	for i, pat := range pats {
